@@ -269,13 +269,29 @@ impl<'a> Dec<'a> {
         let ind = self.ind();
         let typ = Rc::new(self.typ());
         match reg {
-            Some((tctx, name)) => TypeCheck::new_all(tctx, name, typ, pred, ind),
+            Some((tctx, name)) => Self::construct(tctx, name, typ, pred, ind),
             None => {
                 let mut scratch = std::mem::replace(&mut self.scratch, TypeCheckContext::new());
-                let r = TypeCheck::new_all(&mut scratch, "", typ, pred, ind);
+                let r = Self::construct(&mut scratch, "", typ, pred, ind);
                 self.scratch = scratch;
                 r
             },
+        }
+    }
+    // The constructor client code would call for these attributes (the shipped specifications use all
+    // four): no predicate and indirect objects allowed -> TypeCheck::new; a predicate only ->
+    // new_refined; an indirect specification only -> new_indirect; both -> new_all.  Each of them has
+    // to register the representation under its name: a constructor that forgets to shows as an
+    // UnknownTypeCheck rejection of a `n <name>` reference to that type.
+    fn construct(
+        tctx: &mut TypeCheckContext, name: &str, typ: Rc<PDFType>, pred: Option<Rc<dyn Predicate>>,
+        ind: IndirectSpec,
+    ) -> Rc<TypeCheck> {
+        match (pred, ind) {
+            (None, IndirectSpec::Allowed) => TypeCheck::new(tctx, name, typ),
+            (Some(p), IndirectSpec::Allowed) => TypeCheck::new_refined(tctx, name, typ, p),
+            (None, ind) => TypeCheck::new_indirect(tctx, name, typ, ind),
+            (Some(p), ind) => TypeCheck::new_all(tctx, name, typ, Some(p), ind),
         }
     }
     pub fn chk(&mut self) -> Rc<TypeCheck> {
